@@ -210,3 +210,43 @@ func init() {
 			New: "\ts.cleanupBindings(0)\n\ts.trail = s.trail[:0]\n\tflags := make([]bool, s.nbVars)\n\ts.assumptions = flags\n", Expect: ""},
 	)
 }
+
+func init() {
+	addSeeds(
+		// ---- C01 ----
+		seed{Prop: "C01", Name: "solve-gives-up-after-budget", File: "solver/solver.go",
+			Old: "\tfor s.status == Indet {\n\t\ts.search()\n\t\tif s.status == Indet {\n\t\t\ts.Stats.NbRestarts++\n\t\t\ts.rebuildOrderHeap()\n\t\t}\n\t}\n\tif s.status == Sat {",
+			New: "\tfor s.status == Indet {\n\t\ts.search()\n\t\tif s.status == Indet {\n\t\t\ts.Stats.NbRestarts++\n\t\t\tif s.Stats.NbRestarts > 1_000_000 {\n\t\t\t\tbreak\n\t\t\t}\n\t\t\ts.rebuildOrderHeap()\n\t\t}\n\t}\n\tif s.status == Sat {", Expect: "R1.1"},
+		seed{Prop: "C01", Name: "status-overwritten-after-loop", File: "solver/solver.go",
+			Old: "\tif s.Verbose {\n\t\tend <- struct{}{}\n\t\tfmt.Printf(\"c ======================================================================================\\n\")\n\t}\n\treturn s.status\n}\n\n// Assume adds",
+			New: "\tif s.Verbose {\n\t\tend <- struct{}{}\n\t\tfmt.Printf(\"c ======================================================================================\\n\")\n\t}\n\tif s.localNbRestarts > 1<<20 {\n\t\ts.status = Indet\n\t}\n\treturn s.status\n}\n\n// Assume adds", Expect: "R1.1"},
+		seed{Prop: "C01", Name: "search-returns-many", File: "solver/solver.go",
+			Old: "\t\t\tif s.lbdStats.mustRestart() {\n\t\t\t\ts.lbdStats.clear()\n\t\t\t\ts.cleanupBindings(1)\n\t\t\t\treturn Indet",
+			New: "\t\t\tif s.lbdStats.mustRestart() {\n\t\t\t\ts.lbdStats.clear()\n\t\t\t\ts.cleanupBindings(1)\n\t\t\t\treturn Many", Expect: "R1.1"},
+		seed{Prop: "C01", Name: "appendclause-not-watched", File: "solver/watcher.go",
+			Old: "\ts.wl.origClauses = append(s.wl.origClauses, clause)\n\t// log.Printf(\"appending (and watching) %s\", clause.PBString())\n\ts.watchClause(clause)",
+			New: "\ts.wl.origClauses = append(s.wl.origClauses, clause)\n\t// log.Printf(\"appending (and watching) %s\", clause.PBString())\n\tif clause.Len() > 2 {\n\t\ts.watchClause(clause)\n\t}", Expect: "R1.2"},
+		seed{Prop: "C01", Name: "appendclause-never-watched", File: "solver/watcher.go",
+			Old: "\t// log.Printf(\"appending (and watching) %s\", clause.PBString())\n\ts.watchClause(clause)", New: "\t// log.Printf(\"appending (and watching) %s\", clause.PBString())", Expect: "R1.2"},
+		seed{Prop: "C01", Name: "init-watches-all-but-last", File: "solver/watcher.go",
+			Old: "\tfor _, c := range clauses {\n\t\ts.watchClause(c)\n\t}", New: "\tfor i := 0; i+1 < len(newClauses); i++ {\n\t\ts.watchClause(newClauses[i])\n\t}", Expect: "R1.2"},
+		seed{Prop: "C01", Name: "reduce-unwatches-wrong-clause", File: "solver/watcher.go",
+			Old: "\t\ts.wl.learned[i] = s.wl.learned[nbLearned-nbRemoved]\n\t\ts.unwatchClause(c)", New: "\t\ts.wl.learned[i] = s.wl.learned[nbLearned-nbRemoved]\n\t\ts.unwatchClause(s.wl.learned[i])", Expect: "R1.4"},
+		seed{Prop: "C01", Name: "reduce-forgets-unwatch", File: "solver/watcher.go",
+			Old: "\t\ts.wl.learned[i] = s.wl.learned[nbLearned-nbRemoved]\n\t\ts.unwatchPB(c)", New: "\t\ts.wl.learned[i] = s.wl.learned[nbLearned-nbRemoved]", Expect: "R1.4"},
+		seed{Prop: "C01", Name: "lastmodel-aliases-model", File: "solver/solver.go",
+			Old: "\tif s.status == Sat {\n\t\ts.lastModel = make(Model, len(s.model))\n\t\tcopy(s.lastModel, s.model)\n\t}", New: "\tif s.status == Sat {\n\t\ts.lastModel = s.model\n\t}", Expect: "R1.5"},
+		seed{Prop: "C01", Name: "model-reads-working-assignment", File: "solver/solver.go",
+			Old: "\tfor i, lvl := range s.lastModel {\n\t\tres[i] = lvl > 0\n\t}\n\treturn res", New: "\tfor i, lvl := range s.model {\n\t\tres[i] = lvl > 0\n\t}\n\treturn res", Expect: "R1.5"},
+		seed{Prop: "C01", Name: "benign-tail-of-solve-in-helper", File: "solver/solver.go",
+			Old: "\tif s.status == Sat {\n\t\ts.lastModel = make(Model, len(s.model))\n\t\tcopy(s.lastModel, s.model)\n\t}\n\tif s.Verbose {\n\t\tend <- struct{}{}",
+			New: "\tif s.status == Sat {\n\t\tsnapshot := make(Model, len(s.model))\n\t\ts.lastModel = snapshot\n\t\tcopy(snapshot, s.model)\n\t}\n\tif s.Verbose {\n\t\tend <- struct{}{}", Expect: ""},
+	)
+}
+
+func init() {
+	addSeeds(
+		seed{Prop: "C06", Name: "binary-learned-not-emitted", File: "solver/watcher.go",
+			Old: "\ts.clauseBumpActivity(c)\n\tif s.Certified {", New: "\ts.clauseBumpActivity(c)\n\tif c.Len() == 2 {\n\t\treturn\n\t}\n\tif s.Certified {", Expect: "R6.1"},
+	)
+}
